@@ -85,7 +85,10 @@ def run_variant(v, baseline):
     root = make_copy()
     try:
         err = None
-        if v["kind"] == "unrepair":
+        if v["kind"] == "seeded":
+            r = subprocess.run(["git", "apply", "--whitespace=nowarn", v["patch"]], cwd=root, capture_output=True, text=True)
+            err = None if r.returncode == 0 else "patch does not apply: %s" % r.stderr.strip()[:200]
+        elif v["kind"] == "unrepair":
             err = apply_edits(root, v["edits"])
         elif v.get("transform") == "roundtrip":
             err = roundtrip(root)
@@ -94,7 +97,9 @@ def run_variant(v, baseline):
         if err:
             return dict(v_name=v["name"], kind=v["kind"], ok=False, skipped=True, detail=err)
         code, rules, tail = run_check(v["prop"], root)
-        if v["kind"] in ("break", "unrepair"):
+        if v["kind"] == "seeded" and v.get("expected_exit") is not None:
+            ok = code == v["expected_exit"]
+        elif v["kind"] in ("break", "unrepair", "seeded"):
             ok = code == 1 and (not v.get("rule") or any(r.startswith(v["rule"]) for r in rules))
         else:
             ok = code == baseline
@@ -159,7 +164,32 @@ def variants_for(prop):
     for b in variants.BENIGN_ALL:
         vs.append(dict(b, prop=prop))
     vs += unrepair_variants(prop)
+    vs += seeded_variants(prop)
     return vs
+
+
+# seeded changes the checks are known not to alarm on, with the exit status they do give and the reason (DESIGN.md 8.8)
+SEEDED_EXPECTED = {
+    "C09-a": 2,      # size accounting rewritten incrementally: outside the capacity model -> UNDECIDED (exit 2), never a guess
+}
+
+
+def seeded_variants(prop):
+    out = []
+    base = os.path.join(VERIF, "seeded")
+    if not os.path.isdir(base):
+        return out
+    for name in sorted(os.listdir(base)):
+        d = os.path.join(base, name)
+        try:
+            meta = json.load(open(os.path.join(d, "meta.json")))
+        except Exception:
+            continue
+        if meta.get("property") != prop or not os.path.exists(os.path.join(d, "patch.diff")):
+            continue
+        out.append(dict(prop=prop, name="seeded-%s" % name, kind="seeded", patch=os.path.join(d, "patch.diff"), edits=[], rule=None,
+                        expected_exit=SEEDED_EXPECTED.get(name)))
+    return out
 
 
 def selftest(props, jobs=16, quiet=False):
@@ -193,6 +223,9 @@ def summarise(rs):
         elif k == "benign":
             s["benign_total"] += 1
             s["benign_silent"] += int(r["ok"])
+        elif k == "seeded":
+            s["seeded_total"] = s.get("seeded_total", 0) + 1
+            s["seeded_as_expected"] = s.get("seeded_as_expected", 0) + int(r["ok"])
         else:
             s["unrepair_total"] += 1
             s["unrepair_detected"] += int(r["ok"])
@@ -210,8 +243,9 @@ def record_in_evidence(prop, jobs=16, evidence_dir=None):
     ev["coverage"]["selftest"] = {k: v for k, v in s.items() if k != "failures"}
     ev["coverage"]["selftest"]["not_detected_or_noisy"] = [f["variant"] for f in s["failures"]]
     json.dump(ev, open(path, "w"), indent=1, default=str)
-    print("selftest %s: break %d/%d killed, benign %d/%d silent, unrepair %d/%d detected, skipped %d" % (
-        prop, s["break_killed"], s["break_total"], s["benign_silent"], s["benign_total"], s["unrepair_detected"], s["unrepair_total"], s["skipped"]))
+    print("selftest %s: break %d/%d killed, benign %d/%d silent, unrepair %d/%d detected, seeded %d/%d as expected, skipped %d" % (
+        prop, s["break_killed"], s["break_total"], s["benign_silent"], s["benign_total"], s["unrepair_detected"], s["unrepair_total"],
+        s.get("seeded_as_expected", 0), s.get("seeded_total", 0), s["skipped"]))
 
 
 def main(props, jobs=16):
@@ -222,9 +256,9 @@ def main(props, jobs=16):
     n = 0
     for p in props:
         s = summarise(results.get(p, []))
-        n += s["break_total"] + s["benign_total"] + s["unrepair_total"]
-        print("%s baseline_exit=%d break %d/%d benign %d/%d unrepair %d/%d skipped %d" % (p, baselines[p], s["break_killed"], s["break_total"], s["benign_silent"],
-              s["benign_total"], s["unrepair_detected"], s["unrepair_total"], s["skipped"]))
+        n += s["break_total"] + s["benign_total"] + s["unrepair_total"] + s.get("seeded_total", 0)
+        print("%s baseline_exit=%d break %d/%d benign %d/%d unrepair %d/%d seeded %d/%d skipped %d" % (p, baselines[p], s["break_killed"], s["break_total"], s["benign_silent"],
+              s["benign_total"], s["unrepair_detected"], s["unrepair_total"], s.get("seeded_as_expected", 0), s.get("seeded_total", 0), s["skipped"]))
         for f in s["failures"]:
             bad += 1
             print("   !! %s" % json.dumps(f)[:700])
